@@ -20,7 +20,7 @@ def run(cmd, cwd=None, timeout=1200, env=None, stdin=None):
         e.update(env)
     try:
         p = subprocess.run(cmd, cwd=cwd, env=e, stdout=subprocess.PIPE, stderr=subprocess.STDOUT,
-                           timeout=timeout, text=True, input=stdin)
+                           timeout=timeout, text=True, errors="replace", input=stdin)
         return p.returncode, p.stdout
     except subprocess.TimeoutExpired as ex:
         out = ex.stdout if isinstance(ex.stdout, str) else (ex.stdout or b"").decode("utf8", "replace")
@@ -240,7 +240,7 @@ def check(prop, cfg, tier, seed, repo, work, t0, replay_in):
     shards = sorted(glob.glob(os.path.join(cdir, "cases_*.v")))
 
     def do_shard(v):
-        rc, out = coqc(work, v, timeout=600)
+        rc, out = coqc(work, v, timeout=300)
         return v, rc, out
     results = []
     with ThreadPoolExecutor(max_workers=16) as ex:
